@@ -371,4 +371,296 @@ theorem cliqueCore_opb (G : SimpleG) (k : Nat) (sb : Bool) (α : Assign) :
     (cliqueCore G k sb).toOPB.holds α = (cliqueCore G k sb).holds α :=
   Formula.toOPB_holds α _ (cliqueCore_wf G k sb)
 
+/-! ## T-C02.5 subgraph and induced subgraph -/
+
+/-- `l = [f 1, …, f k]` is the table of an embedding `f : V(H) → V(G)`: injective (strictly increasing when
+symmetry breaking is on), edges go to edges, and — for the induced version — non-edges go to non-edges -/
+structure IsEmbTable (G H : SimpleG) (induced symbreak : Bool) (l : List Nat) : Prop where
+  len : l.length = H.n
+  rng : ∀ v ∈ l, 1 ≤ v ∧ v ≤ G.n
+  shape : if symbreak then l.Pairwise (· < ·) else l.Nodup
+  edges : ∀ i i', V H.n i → V H.n i' → adj H i i' = true → adj G (img l i) (img l i') = true
+  nonedges : induced = true → ∀ i i', V H.n i → V H.n i' → adj G (img l i) (img l i') = true → adj H i i' = true
+
+theorem subgraphFormula_nvars (G H : SimpleG) (ind sb : Bool) : (subgraphFormula G H ind sb).nvars = H.n * G.n := rfl
+
+theorem subgraphFormula_wf (G H : SimpleG) (ind sb : Bool) : (subgraphFormula G H ind sb).WF :=
+  wf_of_consIn (subgraphFormula_consIn G H ind sb)
+
+/-- specification theorem: the formula holds exactly under the assignments that encode an (induced) embedding
+of `H` into `G` (increasing when symmetry breaking is on) -/
+theorem subgraphFormula_holds (G H : SimpleG) (hG : GoodGraph G) (hH : GoodGraph H) (ind sb : Bool) (α : Assign) :
+    (subgraphFormula G H ind sb).holds α = true ↔ ∃ l, IsEmbTable G H ind sb l ∧ EncL 1 H.n G.n α l := by
+  simp only [Formula.holds, subgraphFormula, List.all_eq_true]
+  rw [List.forall_mem_append, prefix_sym_holds]
+  have key : ∀ l : List Nat,
+      (∀ i, 1 ≤ i → ∀ i', i < i' → i' ≤ H.n → consistent (adj G (img l i) (img l i')) (adj H i i') ind = true) ↔
+      ((∀ i i', V H.n i → V H.n i' → adj H i i' = true → adj G (img l i) (img l i') = true) ∧
+       (ind = true → ∀ i i', V H.n i → V H.n i' → adj G (img l i) (img l i') = true → adj H i i' = true)) := by
+    intro l
+    constructor
+    · intro h
+      have both : ∀ i i', V H.n i → V H.n i' →
+          (adj H i i' = true → adj G (img l i) (img l i') = true) ∧
+          (ind = true → adj G (img l i) (img l i') = true → adj H i i' = true) := by
+        rintro i i' ⟨a, b⟩ ⟨a', b'⟩
+        rcases Nat.lt_trichotomy i i' with hlt | heq | hgt
+        · exact (consistent_iff _ _ _).1 (h i a i' hlt b')
+        · subst heq
+          rw [hH.irrefl, hG.irrefl]
+          exact ⟨fun e => e, fun _ e => e⟩
+        · rw [hH.symm i i', hG.symm (img l i) (img l i')]
+          exact (consistent_iff _ _ _).1 (h i' a' i hgt b)
+      exact ⟨fun i i' hi hi' => (both i i' hi hi').1, fun hind i i' hi hi' => (both i i' hi hi').2 hind⟩
+    · rintro ⟨h1, h2⟩ i a i' hlt b'
+      exact (consistent_iff _ _ _).2
+        ⟨h1 i i' ⟨a, by omega⟩ ⟨by omega, b'⟩, fun hind => h2 hind i i' ⟨a, by omega⟩ ⟨by omega, b'⟩⟩
+  constructor
+  · rintro ⟨⟨l, hl, hs⟩, he⟩
+    obtain ⟨e1, e2⟩ := (key l).1 ((subgraphEdges_iff hG hl hs).1 he)
+    exact ⟨l, ⟨hl.len, hl.rng, hs, e1, e2⟩, hl⟩
+  · rintro ⟨l, ⟨_, _, hs, e1, e2⟩, hl⟩
+    exact ⟨⟨l, hl, hs⟩, (subgraphEdges_iff hG hl hs).2 ((key l).2 ⟨e1, e2⟩)⟩
+
+/-- non-vacuity: the path `1-2-3` embeds into the triangle, but not as an induced subgraph -/
+example : IsEmbTable ⟨3, 3, [[], [2, 3], [1, 3], [1, 2]], [(3, 1), (1, 3), (3, 2), (2, 3), (2, 1), (1, 2)]⟩
+    ⟨3, 2, [[], [2], [1, 3], [2]], [(3, 2), (2, 3), (2, 1), (1, 2)]⟩ false true [1, 2, 3] :=
+  ⟨rfl, by decide, by decide, by
+    rintro i i' ⟨a, b⟩ ⟨a', b'⟩
+    have : i = 1 ∨ i = 2 ∨ i = 3 := by simp only at b; omega
+    have : i' = 1 ∨ i' = 2 ∨ i' = 3 := by simp only at b'; omega
+    rcases ‹i = 1 ∨ i = 2 ∨ i = 3› with rfl | rfl | rfl <;>
+      rcases ‹i' = 1 ∨ i' = 2 ∨ i' = 3› with rfl | rfl | rfl <;> decide, by intro h; cases h⟩
+
+/-- satisfiable iff `H` embeds into `G` (as an induced subgraph when `induced`) -/
+theorem subgraphFormula_sat_iff (G H : SimpleG) (hG : GoodGraph G) (hH : GoodGraph H) (ind sb : Bool) :
+    (∃ α, (subgraphFormula G H ind sb).holds α = true) ↔ ∃ l, IsEmbTable G H ind sb l := by
+  constructor
+  · rintro ⟨α, hα⟩
+    obtain ⟨l, hl, _⟩ := (subgraphFormula_holds G H hG hH ind sb α).1 hα
+    exact ⟨l, hl⟩
+  · rintro ⟨l, hl⟩
+    exact ⟨encode 1 H.n G.n l, (subgraphFormula_holds G H hG hH ind sb _).2 ⟨l, hl, encode_encL hl.len hl.rng⟩⟩
+
+/-- the explicit bijection between satisfying assignments and (induced) embeddings -/
+theorem subgraphFormula_count (G H : SimpleG) (hG : GoodGraph G) (hH : GoodGraph H) (ind sb : Bool) :
+    (∀ l, IsEmbTable G H ind sb l → (subgraphFormula G H ind sb).holds (encode 1 H.n G.n l) = true) ∧
+    (∀ α, (subgraphFormula G H ind sb).holds α = true →
+        ∃ l, IsEmbTable G H ind sb l ∧ AgreeOn (H.n * G.n) α (encode 1 H.n G.n l)) ∧
+    (∀ l l', IsEmbTable G H ind sb l → IsEmbTable G H ind sb l' →
+        AgreeOn (H.n * G.n) (encode 1 H.n G.n l) (encode 1 H.n G.n l') → l = l') :=
+  unary_counting (subgraphFormula G H ind sb) H.n G.n rfl (IsEmbTable G H ind sb)
+    (subgraphFormula_holds G H hG hH ind sb) (fun _ hl => ⟨hl.len, hl.rng⟩)
+
+theorem subgraphFormula_models_equiv (G H : SimpleG) (hG : GoodGraph G) (hH : GoodGraph H) (ind sb : Bool) :
+    Nonempty (Models (subgraphFormula G H ind sb) ≃ {l : List Nat // IsEmbTable G H ind sb l}) :=
+  unary_counting_equiv (subgraphFormula G H ind sb) (subgraphFormula_wf G H ind sb) H.n G.n rfl
+    (IsEmbTable G H ind sb) (subgraphFormula_holds G H hG hH ind sb) (fun _ hl => ⟨hl.len, hl.rng⟩)
+
+/-- no embedding of more vertices than `G` has: unsatisfiable when `|V(H)| > |V(G)|` -/
+theorem subgraphFormula_unsat_of_gt (G H : SimpleG) (hG : GoodGraph G) (hH : GoodGraph H) (ind sb : Bool)
+    (h : G.n < H.n) (α : Assign) : (subgraphFormula G H ind sb).holds α = false := by
+  cases e : (subgraphFormula G H ind sb).holds α
+  · rfl
+  · obtain ⟨l, hl, _⟩ := (subgraphFormula_holds G H hG hH ind sb α).1 e
+    have hnd : l.Nodup := by
+      have := hl.shape
+      cases sb
+      · exact this
+      · exact nodup_of_sorted this
+    have := List.Nodup.length_le_of_subset hnd (l₂ := verts G.n) (fun v hv => mem_verts.2 (hl.rng v hv))
+    rw [verts_length, hl.len] at this
+    omega
+
+theorem subgraphFormula_cnf (G H : SimpleG) (ind sb : Bool) (α : Assign) :
+    (subgraphFormula G H ind sb).toCNF.holds α = (subgraphFormula G H ind sb).holds α :=
+  Formula.toCNF_holds α _ (subgraphFormula_wf G H ind sb)
+
+theorem subgraphFormula_opb (G H : SimpleG) (ind sb : Bool) (α : Assign) :
+    (subgraphFormula G H ind sb).toOPB.holds α = (subgraphFormula G H ind sb).holds α :=
+  Formula.toOPB_holds α _ (subgraphFormula_wf G H ind sb)
+
+/-! ## T-C02.6 Ramsey witness (defect D25: the size `s` of the independent set is ignored) -/
+
+/-- `l` lists `k` distinct vertices (increasing with symmetry breaking) that are pairwise adjacent when
+`C = true` and pairwise non-adjacent when `C = false` -/
+structure IsRamseyTable (G : SimpleG) (k : Nat) (symbreak : Bool) (C : Bool) (l : List Nat) : Prop where
+  len : l.length = k
+  rng : ∀ v ∈ l, 1 ≤ v ∧ v ≤ G.n
+  shape : if symbreak then l.Pairwise (· < ·) else l.Nodup
+  mono : l.Pairwise (fun a b => adj G a b = C)
+
+theorem ramseyWitnessCore_nvars (G : SimpleG) (k : Nat) (sb : Bool) :
+    (ramseyWitnessCore G k sb).nvars = 1 + k * G.n := rfl
+
+theorem ramseyWitnessCore_wf (G : SimpleG) (k : Nat) (sb : Bool) : (ramseyWitnessCore G k sb).WF :=
+  wf_of_consIn (ramseyWitnessCore_consIn G k sb)
+
+/-- parameter validation; the built formula does not depend on `s` -/
+theorem ramseyWitnessFormula_eq (G : SimpleG) (k s : Int) (sb : Bool) :
+    ramseyWitnessFormula G k s sb =
+      if k < 0 then .error .valueError else if s < 0 then .error .valueError
+      else .ok (ramseyWitnessCore G k.toNat sb) := rfl
+
+theorem ramseyWitnessFormula_ignores_s (G : SimpleG) (k s s' : Int) (sb : Bool) (hs : 0 ≤ s) (hs' : 0 ≤ s') :
+    ramseyWitnessFormula G k s sb = ramseyWitnessFormula G k s' sb := by
+  have a : ¬ s < 0 := by omega
+  have b : ¬ s' < 0 := by omega
+  simp [ramseyWitnessFormula, a, b]
+
+/-- specification theorem — what the code really encodes: variable 1 (`C`) chooses between "the image is a
+`k`-clique" and "the image is a `k`-independent set"; the mapping starts at variable 2 -/
+theorem ramseyWitnessCore_holds (G : SimpleG) (hG : GoodGraph G) (k : Nat) (sb : Bool) (α : Assign) :
+    (ramseyWitnessCore G k sb).holds α = true ↔ ∃ l, IsRamseyTable G k sb (α 1) l ∧ EncL 2 k G.n α l := by
+  simp only [Formula.holds, ramseyWitnessCore, List.all_eq_true]
+  rw [List.forall_mem_append, prefix_holds α k G.n (by omega)]
+  constructor
+  · rintro ⟨⟨l, hl, hnd⟩, he⟩
+    obtain ⟨hs, hm⟩ := (ramseyEdges_iff hG hl hnd).1 he
+    exact ⟨l, ⟨hl.len, hl.rng, hs, hm⟩, hl⟩
+  · rintro ⟨l, ⟨_, _, hs, hm⟩, hl⟩
+    have hs' : Shape sb l := hs
+    exact ⟨⟨l, hl, hs'.nodup⟩, (ramseyEdges_iff hG hl hs'.nodup).2 ⟨hs, hm⟩⟩
+
+/-- an independent set of `G` as a set of vertices (strictly increasing list) -/
+def IsIndep (G : SimpleG) (S : List Nat) : Prop :=
+  S.Pairwise (· < ·) ∧ (∀ v ∈ S, 1 ≤ v ∧ v ≤ G.n) ∧ ∀ u ∈ S, ∀ v ∈ S, u ≠ v → adj G u v = false
+
+def HasIndep (G : SimpleG) (s : Nat) : Prop := ∃ S, IsIndep G S ∧ S.length = s
+
+/-- the assignment with `C = c` and the mapping given by the table `l` -/
+def ramseyAssign (k N : Nat) (c : Bool) (l : List Nat) : Assign :=
+  fun x => if x = 1 then c else encode 2 k N l x
+
+theorem ramseyAssign_encL {k N : Nat} (c : Bool) {l : List Nat} (hlen : l.length = k)
+    (hr : ∀ v ∈ l, 1 ≤ v ∧ v ≤ N) : EncL 2 k N (ramseyAssign k N c l) l :=
+  (encode_encL (st := 2) hlen hr).congr (fun x h1 _ => by
+    have : x ≠ 1 := by omega
+    simp [ramseyAssign, this])
+
+/-- a repetition-free list of pairwise (non-)adjacent vertices can be sorted -/
+theorem exists_sorted_mono (G : SimpleG) (hG : GoodGraph G) (C : Bool) {l : List Nat} (hn : l.Nodup)
+    (hm : l.Pairwise (fun a b => adj G a b = C)) :
+    ∃ l' : List Nat, l'.Perm l ∧ l'.Pairwise (· < ·) ∧ l'.Pairwise (fun a b => adj G a b = C) := by
+  refine ⟨l.mergeSort (fun a b => decide (a ≤ b)), List.mergeSort_perm _ _, ?_, ?_⟩
+  · have hle : (l.mergeSort (fun a b => decide (a ≤ b))).Pairwise (fun a b => decide (a ≤ b) = true) :=
+      List.pairwise_mergeSort (by intro a b c; simp; omega) (by intro a b; simp; omega) l
+    have hnd : (l.mergeSort (fun a b => decide (a ≤ b))).Nodup := (List.mergeSort_perm _ _).nodup_iff.2 hn
+    exact sorted_of_le_nodup (hle.imp (by intro a b h; simpa using h)) hnd
+  · exact ((List.mergeSort_perm l _).pairwise_iff (fun {x y} h => by rw [hG.symm]; exact h)).2 hm
+
+theorem pairwise_mono_iff {G : SimpleG} (hG : GoodGraph G) (C : Bool) {l : List Nat} (hn : l.Nodup) :
+    l.Pairwise (fun a b => adj G a b = C) ↔ ∀ u ∈ l, ∀ v ∈ l, u ≠ v → adj G u v = C := by
+  induction l with
+  | nil => simp
+  | cons x xs ih =>
+    rw [List.nodup_cons] at hn
+    rw [List.pairwise_cons, ih hn.2]
+    constructor
+    · rintro ⟨h1, h2⟩ u hu v hv hne
+      rcases List.mem_cons.1 hu with hu | hu
+      · rcases List.mem_cons.1 hv with hv | hv
+        · exact absurd (hu.trans hv.symm) hne
+        · rw [hu]; exact h1 v hv
+      · rcases List.mem_cons.1 hv with hv | hv
+        · rw [hv, hG.symm]; exact h1 u hu
+        · exact h2 u hu v hv hne
+    · intro h
+      refine ⟨fun a ha => h x List.mem_cons_self a (List.mem_cons_of_mem _ ha) ?_,
+        fun u hu v hv hne => h u (List.mem_cons_of_mem _ hu) v (List.mem_cons_of_mem _ hv) hne⟩
+      rintro rfl; exact hn.1 ha
+
+/-- what the code really decides: a `k`-clique or a `k`-independent set — `s` plays no role -/
+theorem ramseyWitnessCore_sat_iff (G : SimpleG) (hG : GoodGraph G) (k : Nat) (sb : Bool) :
+    (∃ α, (ramseyWitnessCore G k sb).holds α = true) ↔ HasClique G k ∨ HasIndep G k := by
+  constructor
+  · rintro ⟨α, hα⟩
+    obtain ⟨l, ⟨a, b, c, d⟩, _⟩ := (ramseyWitnessCore_holds G hG k sb α).1 hα
+    have hnd : l.Nodup := by
+      cases sb
+      · exact c
+      · exact nodup_of_sorted c
+    obtain ⟨l', hp, hs, hm⟩ := exists_sorted_mono G hG (α 1) hnd d
+    have hr : ∀ v ∈ l', 1 ≤ v ∧ v ≤ G.n := fun v hv => b v (hp.mem_iff.1 hv)
+    have hlen : l'.length = k := by rw [hp.length_eq, a]
+    have hm' := (pairwise_mono_iff hG (α 1) (nodup_of_sorted hs)).1 hm
+    cases e : α 1
+    · right; rw [e] at hm'; exact ⟨l', ⟨hs, hr, hm'⟩, hlen⟩
+    · left; rw [e] at hm'; exact ⟨l', ⟨hs, hr, hm'⟩, hlen⟩
+  · have build : ∀ (C : Bool) (S : List Nat), S.Pairwise (· < ·) → (∀ v ∈ S, 1 ≤ v ∧ v ≤ G.n) →
+        (∀ u ∈ S, ∀ v ∈ S, u ≠ v → adj G u v = C) → S.length = k →
+        ∃ α, (ramseyWitnessCore G k sb).holds α = true := by
+      intro C S hs hr hm hk
+      refine ⟨ramseyAssign k G.n C S, (ramseyWitnessCore_holds G hG k sb _).2 ⟨S, ⟨hk, hr, ?_, ?_⟩, ramseyAssign_encL C hk hr⟩⟩
+      · cases sb
+        · exact nodup_of_sorted hs
+        · exact hs
+      · have : ramseyAssign k G.n C S 1 = C := by simp [ramseyAssign]
+        rw [this]
+        exact (pairwise_mono_iff hG C (nodup_of_sorted hs)).2 hm
+    rintro (⟨S, ⟨hs, hr, hm⟩, hk⟩ | ⟨S, ⟨hs, hr, hm⟩, hk⟩)
+    · exact build true S hs hr hm hk
+    · exact build false S hs hr hm hk
+
+/-- THE DOCUMENTED STATEMENT ("True if graph contains either k-clique or an s independent set"):
+satisfiable iff `G` has a `k`-clique or an independent set of size `s`.  It is FALSE of the code for
+`k ≠ s` (see the two counterexamples below) and is proved only under `k = s`. -/
+def RamseyWitnessDocumented (G : SimpleG) (k s : Nat) (sb : Bool) : Prop :=
+  (∃ α, (ramseyWitnessCore G k sb).holds α = true) ↔ (HasClique G k ∨ HasIndep G s)
+
+/-- full statement: `∀ G k s sb, GoodGraph G → RamseyWitnessDocumented G k s sb`; proved here for `k = s` -/
+theorem ramseyWitness_sat_iff_partial (G : SimpleG) (hG : GoodGraph G) (k s : Nat) (sb : Bool) (hks : k = s) :
+    RamseyWitnessDocumented G k s sb := by
+  subst hks
+  exact ramseyWitnessCore_sat_iff G hG k sb
+
+theorem not_hasIndep_of_gt (G : SimpleG) (s : Nat) (h : G.n < s) : ¬ HasIndep G s := by
+  rintro ⟨S, ⟨hs, hr, _⟩, hk⟩
+  have := List.Nodup.length_le_of_subset (nodup_of_sorted hs) (l₂ := verts G.n)
+    (fun v hv => mem_verts.2 (hr v hv))
+  rw [verts_length] at this
+  omega
+
+/-- two isolated vertices -/
+def twoIsolated : SimpleG := ⟨2, 0, [[], [], []], []⟩
+/-- a single vertex -/
+def oneVertex : SimpleG := ⟨1, 0, [[], []], []⟩
+
+theorem twoIsolated_good : GoodGraph twoIsolated := goodGraph_of_edgeset _ (by decide)
+theorem oneVertex_good : GoodGraph oneVertex := goodGraph_of_edgeset _ (by decide)
+
+/-- counterexample 1 (formula satisfiable, documented property false): two isolated vertices, `k = 2`, `s = 3`.
+The assignment `¬C, 1 ↦ 1, 2 ↦ 2` satisfies the formula (checked by `decide`), but there is neither a
+2-clique nor an independent set of size 3. -/
+theorem ramseyWitness_documented_false_sat (sb : Bool) : ¬ RamseyWitnessDocumented twoIsolated 2 3 sb := by
+  intro h
+  have hsat : ∃ α, (ramseyWitnessCore twoIsolated 2 sb).holds α = true :=
+    ⟨ramseyAssign 2 2 false [1, 2], by cases sb <;> decide⟩
+  rcases h.1 hsat with ⟨S, ⟨hs, _, hm⟩, hk⟩ | hI
+  · match S, hk, hs, hm with
+    | [a, b], _, hs, hm =>
+      have hab : a < b := by simpa using hs
+      have := hm a (by simp) b (by simp) (by omega)
+      simp [adj_eq_contains, twoIsolated] at this
+  · exact not_hasIndep_of_gt twoIsolated 3 (by decide) hI
+
+/-- counterexample 2 (documented property true, formula unsatisfiable): one vertex, `k = 2`, `s = 1`.
+`{1}` is an independent set of size 1, but the formula asks for two distinct images. -/
+theorem ramseyWitness_documented_false_unsat (sb : Bool) : ¬ RamseyWitnessDocumented oneVertex 2 1 sb := by
+  intro h
+  have hdoc : HasClique oneVertex 2 ∨ HasIndep oneVertex 1 :=
+    Or.inr ⟨[1], ⟨by simp, by simp [oneVertex], by simp⟩, rfl⟩
+  have := (ramseyWitnessCore_sat_iff oneVertex oneVertex_good 2 sb).1 (h.2 hdoc)
+  rcases this with hc | hi
+  · exact not_hasClique_of_gt oneVertex 2 (by decide) hc
+  · exact not_hasIndep_of_gt oneVertex 2 (by decide) hi
+
+theorem ramseyWitnessCore_cnf (G : SimpleG) (k : Nat) (sb : Bool) (α : Assign) :
+    (ramseyWitnessCore G k sb).toCNF.holds α = (ramseyWitnessCore G k sb).holds α :=
+  Formula.toCNF_holds α _ (ramseyWitnessCore_wf G k sb)
+
+theorem ramseyWitnessCore_opb (G : SimpleG) (k : Nat) (sb : Bool) (α : Assign) :
+    (ramseyWitnessCore G k sb).toOPB.holds α = (ramseyWitnessCore G k sb).holds α :=
+  Formula.toOPB_holds α _ (ramseyWitnessCore_wf G k sb)
+
 end Cnfgen.C02
